@@ -12,6 +12,7 @@ import Driver.Sweep2
 import Driver.Export
 import Driver.Progress
 import Driver.Bool3
+import Driver.Hull
 import Driver.Sync
 import Driver.Measure
 import Driver.CrossOps
@@ -34,6 +35,7 @@ def dispatch (line : String) : String :=
   | "export" :: rest => ExportDrv.handle rest
   | "progress" :: rest => ProgressDrv.handle rest
   | "bool3" :: rest => Bool3Drv.handle rest
+  | "hull" :: rest => HullDrv.handle rest
   | "sync" :: rest => SyncDrv.handle rest
   | "measure" :: rest => MeasureDrv.handle rest
   | "crossops" :: rest => CrossOpsDrv.handle rest
